@@ -154,6 +154,9 @@ def flip_miles(o, d):
 # ------------------------------------------------------------------ row filter
 
 
+ABSURD_NUMBER = 10**9
+
+
 def _norm(v):
     return (v or '').strip().upper()
 
@@ -187,6 +190,14 @@ def field_verdicts(row, known_airports=None):
         out['distance'] = ('ok', None)
     except (TypeError, ValueError):
         out['distance'] = ('either', 'distance unreadable')
+    # a numeric cell that no schedule can mean (flight numbers, seats, times, day offsets and distances have
+    # 1..7 digits): the documentation says nothing about such a row -- it may be refused, raise, or be imported
+    for f in ('fltno', 'seats', 'deptim', 'arrtim', 'arrday', 'distance', 'stops'):
+        try:
+            if abs(int(row.get(f))) >= ABSURD_NUMBER and out.get(f, ('ok',))[0] != 'skip':
+                out[f] = ('either', 'absurd number')
+        except (TypeError, ValueError):
+            pass
     for f in ('depapt', 'arrapt'):
         a = row.get(f) or ''
         out[f] = ('ok', None) if a in known else ('either', 'airport code spelling') if _norm(a) in known else ('skip', 'unknown-airport')
@@ -275,7 +286,7 @@ def expect_row(row, year):
     if unknown:
         return {'kind': 'unknown-airport', 'why': unknown[0]}
     silent = [f'{f}={row.get(f)!r} ({w})' for f, (v, w) in fv.items() if v == 'either']
-    if silent and (fv['distance'][0] == 'either' or fv['depapt'][0] == 'either' or fv['arrapt'][0] == 'either'):
+    if silent and any(fv[f][0] == 'either' for f in fv if f not in ('carrier', 'service', 'operating', 'genacft', 'stops')):
         return {'kind': 'either', 'why': '; '.join(silent)}
     calc = airport_distance_km(o, d)
     stated = int(row['distance']) * MILE_KM
